@@ -51,11 +51,13 @@ theorem err_propagates_unsound : ¬ ErrPropagatesFull := by
   rw [this] at he
   cases he
 
-/-- … and what happens instead is harmless: with only `error` faults armed (any number, anywhere)
-a statement that returns `Ok` returns exactly the fault-free rows. -/
-theorem no_partial_ok {α : Type} (p : Plan α) (h : p.NoPanic) (rows : List α)
+/-- … and what happens instead is harmless: whatever faults are armed — errors **and panics**, any
+number, anywhere — a statement that returns `Ok` returns exactly the fault-free rows. (Before the
+repair of `Builder::spawn` this needed the hypothesis "no panic fault"; it is now the full
+statement.) -/
+theorem no_partial_ok {α : Type} (p : Plan α) (rows : List α)
     (hr : p.run = .ok rows) : p.clean.run = .ok rows := by
-  have hrel := Plan.tr_rel p h
+  have hrel := Plan.tr_rel p
   rw [Plan.run, collect_ok_iff] at hr
   rcases hrel with heq | ⟨hf, _⟩
   · rw [Plan.run, collect_ok_iff, ← heq]; exact hr
@@ -67,18 +69,17 @@ theorem no_partial_ok {α : Type} (p : Plan α) (h : p.NoPanic) (rows : List α)
 def PanicPropagatesFull : Prop :=
   ∀ (α : Type) (p : Plan α), p.faults = 1 → p.Fires .panic → ∃ e, p.run = .error e
 
-/-- What the code does instead: a task that dies at item `k` is read by its consumer as a stream
-that ended after `k` chunks. -/
-theorem panic_reads_as_end_of_stream {α : Type} (o : Op1 α) (c : Plan α) (k : Nat)
-    (hk : k < (o.exec c.tr).items) :
-    (Plan.unary (some ⟨k, .panic⟩) o c).run = .ok ((o.exec c.tr).chunks.take k) := by
-  simp [Plan.run, Plan.tr, applyFault, hk, collect]
+/-- Proved part (same as for errors): a panic that fires, with every task between it and the
+root reading its input to the end, makes the statement return `Err`. -/
+theorem panic_propagates_partial {α : Type} (p : Plan α) (h : p.ErrHit) : ∃ e, p.run = .error e :=
+  err_propagates_partial p h
 
-/-- Exactly *no* operator lets its parent notice: with only panics armed and no operator failing
-by itself, no plan whatsoever returns `Err`. -/
-theorem panic_never_reported {α : Type} (p : Plan α) (h : p.OnlyPanics) : ∃ rows, p.run = .ok rows := by
-  have := Plan.onlyPanics_fin p h
-  exact ⟨p.tr.chunks, by simp [Plan.run, collect, this]⟩
+/-- REGRESSION (was `panic_reads_as_end_of_stream`: `run = Ok (first k chunks)`): a task that
+panics at item `k` now ends its stream with `Err(operator panicked)`. -/
+theorem panic_reported_regression {α : Type} (o : Op1 α) (c : Plan α) (k : Nat)
+    (hk : k < (o.exec c.tr).items) :
+    (Plan.unary (some ⟨k, .panic⟩) o c).run = .error 2 := by
+  simp [Plan.run, Plan.tr, applyFault, hk, collect]
 
 /-- `Ok` with rows different from the fault-free rows. -/
 def partialOk (p : Plan Ck) : Bool :=
@@ -91,8 +92,8 @@ private def src3 (ft : Option Fault) : Plan Ck :=
 private def src2 (ft : Option Fault) : Plan Ck :=
   .leaf ft ⟨[⟨1, 0, 2, true⟩, ⟨1, 1, 1, true⟩], none⟩
 
-/-- One witness per operator kind of the executed plans (the check replays each on the
-implementation): the panic sits in the named operator's task. -/
+/-- One former witness per operator kind (each returned `Ok` with rows missing before the repair;
+kept as regression inputs, the check replays the same shapes on the implementation). -/
 def panicWitnesses : List (String × Plan Ck) := [
   ("scan",    src3 (some ⟨1, .panic⟩)),
   ("filter",  .unary (some ⟨1, .panic⟩) (streamOp 1 [2, 2, 1] none) (src3 none)),
@@ -103,14 +104,19 @@ def panicWitnesses : List (String × Plan Ck) := [
   ("below-join-right", .binary none (joinOp 2 3 2 [3]) (src3 none) (src2 (some ⟨1, .panic⟩)))
 ]
 
+/-- The full statement still fails — for the same harmless reason as for errors: a `limit` that
+has stopped reading never sees the panic, and returns the complete answer (`no_partial_ok`). -/
 theorem panic_propagates_unsound : ¬ PanicPropagatesFull := by
   intro h
-  obtain ⟨e, he⟩ := h Ck (src3 (some ⟨1, .panic⟩)) (by decide) ⟨1, rfl, by decide⟩
-  have : (src3 (some ⟨1, .panic⟩)).run = .ok [⟨0, 0, 3, true⟩] := by rfl
+  obtain ⟨e, he⟩ := h Ck (.unary none (limitOp 1 1 0) (src3 (some ⟨1, .panic⟩))) (by decide) (Or.inr ⟨1, rfl, by decide⟩)
+  have : (Plan.unary none (limitOp 1 1 0) (src3 (some ⟨1, .panic⟩))).run = .ok [⟨1, 0, 1, true⟩] := by rfl
   rw [this] at he
   cases he
 
-theorem panic_witnesses_partial_ok : panicWitnesses.all (fun w => partialOk w.2) = true := by decide
+/-- REGRESSION (was `panic_witnesses_partial_ok`): none of the former witnesses returns a partial
+`Ok` any more; every one of them returns `Err`. -/
+theorem panic_witnesses_regression :
+    panicWitnesses.all (fun w => !partialOk w.2 && (match w.2.run with | .error _ => true | .ok _ => false)) = true := by decide
 
 /-! ## prefix monotonicity (what a truncated input does to `filter` / `proj` / `limit` / `window`) -/
 
@@ -181,13 +187,13 @@ theorem dml_atomic_at_root_unsound : ¬ DmlAtomicFull := by
   revert this
   decide
 
-/-- With only `error` faults below, a DML statement is all-or-nothing: either it behaves exactly
-as without faults, or it fails and nothing is committed. -/
-theorem dml_all_or_nothing {α : Type} (d : Dml α) (c : Plan α) (h : c.NoPanic) :
+/-- Whatever faults are armed below (errors, panics), a DML statement is all-or-nothing: either
+it behaves exactly as without faults, or it fails and nothing is committed. -/
+theorem dml_all_or_nothing {α : Type} (d : Dml α) (c : Plan α) :
     ((Stmt.dml none d c).run.out = (Stmt.dml none d c).clean.run.out ∧
       (Stmt.dml none d c).run.committed = (Stmt.dml none d c).clean.run.committed) ∨
     ((∃ e, (Stmt.dml none d c).run.out = .error e) ∧ (Stmt.dml none d c).run.committed = none) := by
-  have hrel := Plan.tr_rel c h
+  have hrel := Plan.tr_rel c
   simp only [Stmt.run, Stmt.clean]
   rcases Phase.run_rel d.phase [] hrel with he | ⟨⟨e', he⟩, _⟩
   · left; rw [he]; constructor <;> rfl
@@ -200,15 +206,21 @@ def DmlAtomicOnSilentEndFull : Prop :=
     (Stmt.dml none d c).run.committed = none ∨
     (Stmt.dml none d c).run.committed = (Stmt.dml none d c).clean.run.committed
 
-/-- Witness: the child's task dies after its first chunk; INSERT commits that chunk only and
-reports success. -/
+/-- Now the full statement holds (it is `dml_all_or_nothing`'s second component): there is no
+silent end any more. -/
+theorem dml_atomic_on_silent_end : DmlAtomicOnSilentEndFull := by
+  intro α d c
+  rcases dml_all_or_nothing d c with h | h
+  · right; exact h.2
+  · left; exact h.2
+
+/-- The former witness (the child's task dies after its first chunk; INSERT committed that chunk
+only and reported success), kept as a regression input. -/
 def dmlSilentWitness : Stmt Ck := .dml none (dmlCk 9) (src3 (some ⟨1, .panic⟩))
 
-theorem dml_atomic_on_silent_end_unsound : ¬ DmlAtomicOnSilentEndFull := by
-  intro h
-  have := h Ck (dmlCk 9) (src3 (some ⟨1, .panic⟩))
-  revert this
-  decide
+/-- REGRESSION (was `dml_atomic_on_silent_end_unsound`): the statement fails and commits nothing. -/
+theorem dml_silent_end_regression :
+    dmlSilentWitness.run.out = .error 2 ∧ dmlSilentWitness.run.committed = none := ⟨rfl, rfl⟩
 
 /-! ## delivery: the broadcast channel as `Builder::spawn` uses it -/
 
@@ -304,14 +316,10 @@ example : ∀ a ∈ ([.send 1, .recv, .send 2, .close, .recv] : List (ChanAct Na
 example : (Plan.unary none (limitOp 2 4 0) (.unary none (streamOp 1 [2, 2, 1] none) (src3 (some ⟨1, .panic⟩)))).StreamChain :=
   ⟨limitOp_streaming _ _ _, streamOp_streaming _ _ _, trivial⟩
 example : (Plan.unary none (streamOp 1 [2, 2, 1] none) (src3 (some ⟨1, .error⟩))).ErrHit :=
-  Or.inr ⟨rfl, ⟨fun _ => rfl, fun _ => rfl⟩, ⟨1, rfl, by decide⟩⟩
-example : (Plan.unary none (limitOp 1 1 0) (src3 (some ⟨0, .error⟩))).NoPanic ∧
-    (Plan.unary none (limitOp 1 1 0) (src3 (some ⟨2, .error⟩))).run = .ok [⟨1, 0, 1, true⟩] := by
-  constructor
-  · exact ⟨(by intro f hf; cases hf), (by intro f hf; cases hf; rfl)⟩
-  · rfl
-example : (src3 (some ⟨1, .panic⟩)).OnlyPanics := ⟨(by intro f hf; cases hf; rfl), rfl⟩
+  Or.inr ⟨rfl, ⟨fun _ => rfl, fun _ => rfl⟩, ⟨1, .error, rfl, by decide⟩⟩
+example : (Plan.unary none (limitOp 1 1 0) (src3 (some ⟨2, .error⟩))).run = .ok [⟨1, 0, 1, true⟩] := rfl
+example : (Plan.unary none (streamOp 1 [2, 2, 1] none) (src3 (some ⟨1, .panic⟩))).ErrHit :=
+  Or.inr ⟨rfl, ⟨fun _ => rfl, fun _ => rfl⟩, ⟨1, .panic, rfl, by decide⟩⟩
 example : (Stmt.dml none (dmlCk 9) (src3 (some ⟨1, .error⟩))).run.out = .error 0 := by rfl
-example : dmlSilentWitness.run.committed = some [⟨0, 0, 3, true⟩] := by decide
 
 end RlModel
